@@ -28,7 +28,7 @@ REQUIRED_FEATURES = ["encoding:enum", "encoding:int", "selector:chroms", "select
 
 def plan(tier, seed):
     n = 16 if tier == "quick" else 48
-    per = 5 if tier == "quick" else 14
+    per = 5 if tier == "quick" else 40
     return [{"kind": "sel", "sub": i, "cases": per} for i in range(n)]
 
 
